@@ -705,6 +705,9 @@ type vDOp struct {
 	// NoAnnounce (provide): Provide(announce=false) - only the local provider record is written, on the DHT the
 	// write is routed to
 	NoAnnounce bool
+	// GrowAfterFirstRead (findpeer): addresses that enter the peerstore right after the first inner DHT has read its
+	// answer (identify / the other lookup learning them): the second inner answer is a superset of the first
+	GrowAfterFirstRead []ma.Multiaddr
 }
 
 type vDEmit struct {
@@ -842,10 +845,33 @@ func (n *vDNet) Run(op vDOp) *vDRes {
 			}
 			rmu.Lock()
 			res.InnerReads = append(res.InnerReads, append([]ma.Multiaddr(nil), ai.Addrs...))
+			first := len(res.InnerReads) == 1
 			rmu.Unlock()
+			if first && len(op.GrowAfterFirstRead) > 0 {
+				n.H.Peerstore().AddAddrs(op.Target, op.GrowAfterFirstRead, time.Hour)
+			}
 		})
+		if len(op.GrowAfterFirstRead) > 0 {
+			// directed: the LAN side (third closure of dual.FindPeer: deferred trace end, WAN goroutine, LAN goroutine) reads after the WAN side (it waits up to 200 virtual ms for it), so that the LAN
+			// answer is the superset
+			n.PS.SetPeerInfoPreHook(func(p peer.ID) {
+				if p != op.Target || !vDStackHas("dual.(*DHT).FindPeer.func3") {
+					return
+				}
+				for i := 0; i < 200; i++ {
+					rmu.Lock()
+					done := len(res.InnerReads) > 0
+					rmu.Unlock()
+					if done {
+						return
+					}
+					time.Sleep(time.Millisecond)
+				}
+			})
+		}
 		res.Info, res.Err = cl.FindPeer(ctx, op.Target)
 		n.PS.SetPeerInfoHook(nil)
+		n.PS.SetPeerInfoPreHook(nil)
 	case "findprovs":
 		for ai := range cl.FindProvidersAsync(ctx, op.Cid, op.Count) {
 			res.Emits = append(res.Emits, vDEmit{VT: time.Now(), Seq: n.H.Seq.Add(1), AI: ai})
@@ -991,4 +1017,19 @@ func (n *vDNet) vDLastConclusion(res *vDRes) time.Time {
 		}
 	}
 	return last
+}
+
+// vDStackHas tells whether a function whose name ends in suffix is on the calling goroutine's stack.
+func vDStackHas(suffix string) bool {
+	var pcs [48]uintptr
+	fr := runtime.CallersFrames(pcs[:runtime.Callers(2, pcs[:])])
+	for {
+		f, more := fr.Next()
+		if strings.HasSuffix(f.Function, suffix) {
+			return true
+		}
+		if !more {
+			return false
+		}
+	}
 }
